@@ -275,6 +275,7 @@ def snapshot(o, depth=0):
     if isinstance(o, OneShot): return ('oneshot', o.consumed)
     if isinstance(o, SizedStream): return ('stream', o.consumed, tuple(o.touched))
     if depth > 3: return None
+    if isinstance(o, collections.ChainMap): return ('ChainMap', tuple(snapshot(m, depth + 1) for m in o.maps))
     if isinstance(o, dict): return ('dict', type(o).__name__, tuple((repr(k), snapshot(v, depth + 1)) for k, v in dict.items(o)))
     if isinstance(o, (list, tuple, collections.deque)): return (type(o).__name__, tuple(snapshot(i, depth + 1) for i in _plain_iter(o)))
     if isinstance(o, (set, frozenset)): return (type(o).__name__, len(o))
